@@ -1,6 +1,7 @@
 import BstreamVerif.Lemmas.ForkStep
 import BstreamVerif.Lemmas.Discovery
 import BstreamVerif.Lemmas.Inclusive
+import BstreamVerif.Lemmas.StackConsumer
 /-!
 # C01 — Undo/New discipline: a consumer always holds one valid parent-linked chain
 
@@ -169,6 +170,26 @@ theorem history_invariants_consistent (cfg : Config) (hnew : cfg.matches .new = 
             · exact Or.inr hsome)
     rw [runHistory_cons]
     exact ⟨P2, F2, hI2, hJ2⟩
+
+/-- **C01 as it is stated — the consumer that only pushes on New and pops on Undo.** A forkable with a known LIB, fed
+    any history of blocks of one consistent block tree (any order, duplicates, gaps, forks, orphans): a consumer that
+    starts on the LIB holding nothing, pushes every block delivered New, pops on every Undo — checking nothing but
+    "New extends my tip, Undo is my tip" — and ignores every other event never sees either check fail, and at every
+    moment of the stream holds one parent-linked chain rooted at the starting LIB. -/
+theorem push_pop_consumer_holds_one_chain (cfg : Config) (hnew : cfg.matches .new = true)
+    (hundo : cfg.matches .undo = true) (hirr : cfg.matches .irreversible = true) (U : Id → Option Blk) (hU : UOK U)
+    (h : List Blk) (F : List Id) (s : FState) (hI : Inv s []) (hJ : Inv2 U F s.db) (hin : ∀ b ∈ h, U b.id = some b)
+    (hL : LibHistOK cfg s h) (hincl : s.includeInit = false ∨ s.lastSent.isSome = true) :
+    (∃ c', (⟨s.db.libRef.id, []⟩ : SC).runSB ((runHistory cfg s h).2.map sbOf) = some c' ∧ c'.Chain) ∧
+    ∀ pre post, (runHistory cfg s h).2.map sbOf = pre ++ post →
+      ∃ c1, (⟨s.db.libRef.id, []⟩ : SC).runSB pre = some c1 ∧ c1.Chain := by
+  obtain ⟨P', hrun, _⟩ := history_discipline_consistent cfg hnew hundo hirr U hU h F s [] hI hJ hin hL hincl
+  have hf : Follows ⟨s.db.libRef.id, []⟩ ⟨s.db.libRef.id, []⟩ := ⟨[], [], rfl, rfl, rfl⟩
+  obtain ⟨c', hr, _, hc⟩ := follows_run _ _ ⟨s.db.libRef.id, []⟩ _ hf trivial hrun
+  refine ⟨⟨c', hr, hc⟩, ?_⟩
+  intro pre post hsplit
+  rw [hsplit] at hr
+  exact SC.chain_at_every_moment _ c' pre post trivial hr
 
 /-! ### LIB discovery with hold-until-LIB — the configuration of ForkableHub -/
 
